@@ -30,8 +30,8 @@ impl ReadCursor {
         let mut list: Vec<*const ReaderPos> = Vec::with_capacity(MAXS);
         let mut handles: [Option<Reader>; MAXS] = [None, None, None];
         let mut i = 0;
-        while i < MAXS {
-            if i < k {
+        while i < k {
+            {
                 let p: *mut ReaderPos = alloc::allocate(1);
                 ptr::write(p, ReaderPos { pos_data: CountedIndex::from_usize(pos[i], wrap) });
                 let m: *mut ReaderMeta = alloc::allocate(1);
@@ -54,11 +54,9 @@ impl ReadCursor {
         let g = &*self.readers.peek();
         let mut v = ListView { k: g.readers.len(), pos_ptr: [ptr::null(); MAXS], pos: [0; MAXS] };
         let mut i = 0;
-        while i < MAXS {
-            if i < g.readers.len() {
-                v.pos_ptr[i] = g.readers[i] as *const u8;
-                v.pos[i] = (*g.readers[i]).pos_data.vf_peek();
-            }
+        while i < g.readers.len() && i < MAXS {
+            v.pos_ptr[i] = g.readers[i] as *const u8;
+            v.pos[i] = (*g.readers[i]).pos_data.vf_peek();
             i += 1;
         }
         v
